@@ -66,7 +66,7 @@ def install_choice(env, idx):
         env._set(numpy.random, "choice", choice)
 
 
-def body_runs(E, eng, n1, n2, over2, kind2, bs, fresh, shuf, base, i0, i1, i2, i3, i4, i5, j1):
+def body_runs(E, eng, n1, n2, over2, kind2, bs, fresh, shuf, base, i0, i1, i2, i3, i4, i5, j1, nw=False):
     engine = ["pickle", "csv"][concretize(eng, 0, 1)]
     n1 = concretize(n1, 1, 2)
     n2 = concretize(n2, 1, 2)
@@ -111,8 +111,24 @@ def body_runs(E, eng, n1, n2, over2, kind2, bs, fresh, shuf, base, i0, i1, i2, i
         else:
             crop = s.Crop(name="smp", parent_dir=env.parent, batchsize=bs)
             crop.sow_samples(n2, combos=combos2, verbosity=0)
+            gkw = {}
+            if cbool(nw):
+                # the batch is grown with worker processes, as the generated cluster scripts do: rows must still
+                # pair each drawn setting with its own outputs whatever the completion order
+                from ..stubs import basic
+
+                if env.mode == "sym":
+                    wpool = basic.EagerFutureExecutor()
+                else:
+                    from concurrent.futures import ThreadPoolExecutor
+                    from .C04 import _slow_first
+
+                    wpool = ThreadPoolExecutor(2)
+                    gkw["fn"] = _slow_first(fn)
+                env._set(cp, "get_reusable_executor", lambda *a, **k: wpool)
+                gkw["num_workers"] = 2
             for bno in range(1, crop.num_batches + 1):
-                cp.grow(bno, crop=crop, verbosity=0)
+                cp.grow(bno, crop=crop, verbosity=0, **gkw)
             crop.reap()
         table2 = rows_of(env, s.full_df)
         if len(table2) != n1 + n2:
@@ -251,9 +267,9 @@ CONDS = (
                 bounds="two runs (n=1..2 then n=1): first sample_combos (optionally shuffled), second sample_combos "
                        "or sow_samples/grow/reap; combos override on/off; fresh Sampler on the same file or not; "
                        "engine %s; every drawn index; kind2 0 direct 1 crop" % ["pickle", "csv"][eng])]
-    + [make_cond(_G, "runs_n2", body_runs, _SIG,
+    + [make_cond(_G, "runs_n2", body_runs, _SIG + " nw:bool",
                  ["eng == 0 and n1 == 1 and n2 == 2 and 1 <= bs <= 2 and 0 <= kind2 <= 1 and not shuf", _I,
-                  "i1 == 0 and i5 == 0 and j1 == 0"], timeout=600,
+                  "i1 == 0 and i5 == 0 and j1 == 0", "not nw or (kind2 == 1 and bs == 2)"], timeout=600,
                  bounds="second run with n=2 (batchsize 1 or 2 when through a crop), every drawn index"),
        make_cond(_G, "two_live", body_two_live,
                  "o1:bool o2:bool o3:bool over1:bool base:int i0:int i1:int i2:int i3:int i4:int i5:int",
